@@ -22,7 +22,7 @@ import (
 	"github.com/pelletier/go-toml/v2"
 )
 
-type parseState struct{}
+type parseState struct{ hangs int }
 
 // a call that has not returned after this long is reported as a hang (C09)
 const hangLimit = 4 * time.Second
@@ -186,6 +186,19 @@ func dumpConfig(c Config) string {
 
 var _ = evdev.KEY_A
 
+// limit is the waiting time for one ParseData call: hangLimit; a sixteenth of it once three calls of this process have
+// hung, 20 ms after ten (a tree on which nothing hangs never gets there; one on which every call hangs is not waited for
+// by the hour)
+func (p *parseState) limit() time.Duration {
+	if p.hangs >= 10 {
+		return 20 * time.Millisecond
+	}
+	if p.hangs >= 3 {
+		return hangLimit / 16
+	}
+	return hangLimit
+}
+
 func (p *parseState) line(toks []string) (string, bool) {
 	switch toks[0] {
 	case "raw":
@@ -210,9 +223,10 @@ func (p *parseState) line(toks []string) (string, bool) {
 		}()
 		select {
 		case res = <-done:
-		case <-time.After(hangLimit):
+		case <-time.After(p.limit()):
 			// the call did not return: reported as "hang"; the goroutine is abandoned
 			res = "hang"
+			p.hangs++
 		}
 		if res == "hang" {
 			return "hang ;;; -", true
@@ -304,6 +318,26 @@ func (l *loadState) line(toks []string) (string, bool) {
 		if err := os.Symlink(target, p); err != nil {
 			panic(err)
 		}
+		return "", false
+	case "tree.rewrite":
+		// tree.rewrite <root> <name> <content> <keep>: the file is edited in place between two loads of the same tree;
+		// keep=1: the modification time stays what it was (an edit within the time stamp's granularity, `cp -p`, `rsync -t`)
+		r, _ := strconv.Atoi(toks[1])
+		p := filepath.Join(l.dir, rootDirs[r], unhex(toks[2]))
+		st, err := os.Stat(p)
+		if err != nil {
+			panic(err)
+		}
+		if err := os.WriteFile(p, []byte(unhex(toks[3])), 0o666); err != nil {
+			panic(err)
+		}
+		if toks[4] == "1" {
+			os.Chtimes(p, st.ModTime(), st.ModTime())
+		}
+		return "", false
+	case "tree.remove":
+		r, _ := strconv.Atoi(toks[1])
+		os.Remove(filepath.Join(l.dir, rootDirs[r], unhex(toks[2])))
 		return "", false
 	case "tree.load":
 		old, _ := os.Getwd()
